@@ -85,6 +85,8 @@ txn_case = st.fixed_dictionaries({
 row_case = st.fixed_dictionaries({'item': st.sampled_from(ROW_ITEMS), 'amount': amount, 'date': iso_date,
                                   'qty': st.integers(0, 3)})
 rows_case = st.fixed_dictionaries({'orders': st.lists(row_case, max_size=4), 'receipts': st.lists(row_case, max_size=3)})
+# a budget without supplemental sources hands the evaluators None or {} (the common case in real use)
+rows_opt = st.one_of(st.none(), st.just({}), rows_case, rows_case)
 
 
 def mk_txn(c):
